@@ -251,7 +251,7 @@ type copyHandoff struct {
 	gpus        []int
 	Rounds      int
 	KernelBytes int
-	H2DEvery    int // the H2D-after-kernel phase runs in every H2DEvery-th round
+	H2DEvery    int // the H2D-after-kernel phase runs in rounds H2DEvery-1, 2*H2DEvery-1, ...
 	Seed        int
 }
 
@@ -339,7 +339,7 @@ func (b *copyHandoff) Run() {
 		d.SelectGPU(b.ctx, i)
 		b.observedD2H(r, "d2h-after-kernel", i, jm, small, a)
 
-		if r%b.H2DEvery != 0 {
+		if r%b.H2DEvery != b.H2DEvery-1 {
 			continue
 		}
 		// kernel again, then overwrite the small buffer on GPU i; the source is
